@@ -65,6 +65,34 @@ def judgeLoop (tokens steps : Nat) (res : String) (samples discarded : Nat) (dis
   else if !discardedOk then "fail:carry:a discarded token must be reported with proto 0 and a failure code"
   else judgeRun false tokens tokens (discarded + (tokens - discarded) * steps) res samples
 
+/-- Round 6 — "the instance goes on with the next ammo" against the CLOCK, with `discard_overflow` on: a schedule token
+may be dropped (reported as `discarded`, not shot) only when the instance asks for it `maxOverdueMs` or more after its
+time — which a slow answer to the PREVIOUS request causes. A token the instance asks for in time must be shot, whatever
+happened to the tokens before it. `toks`: per token of a direct run of the waiter (harness `k=wait`) its due time relative
+to the moment the instance asks for it (ms, negative = late), whether the run context is alive, and the waiter's verdict
+`IsSlowDown`. The offsets of the driver keep 100 ms and more away from the threshold. -/
+def judgeWaitVerdicts (maxOverdueMs : Int) (toks : List (Int × Bool × Bool)) : String :=
+  let rec go (k : Nat) : List (Int × Bool × Bool) → String
+    | [] => "ok"
+    | (off, live, slow) :: rest =>
+      if live && slow && 0 - off < maxOverdueMs - 100 then
+        s!"fail:discard:token {k} is found overdue (it would be dropped, not shot) although the instance asks for it {if off > 0 then s!"{off} ms BEFORE" else s!"only {0 - off} ms after"} its time"
+      else go (k + 1) rest
+  go 0 toks
+
+/-- … the same on an engine run with one instance and a plain gun (one sample per token, in token order): `dues` are the
+instants of the schedule's tokens (ms after the start of the schedule), `seq` what the aggregator received in order:
+discarded or not, and when (ms after an instant BEFORE the schedule started — so `at - due` is an upper bound of the real
+lateness of the token at that moment, hence of the lateness when the waiter judged it). -/
+def judgeDiscardsLate (maxOverdueMs : Int) (dues : List Int) (seq : List (Bool × Int)) : String :=
+  let rec go (k : Nat) : List Int → List (Bool × Int) → String
+    | due :: ds, (discarded, tAt) :: rest =>
+      if discarded && tAt - due < maxOverdueMs - 100 then
+        s!"fail:discard:token {k} (due {due} ms after the start) was reported as discarded {tAt} ms after the start: at most {tAt - due} ms late, the instance has to shoot it"
+      else go (k + 1) ds rest
+    | _, _ => "ok"
+  go 0 dues seq
+
 /-- Verdict on a direct call of a response-processing function: it must return (value or error), never panic. -/
 def judgeCall (obs : String) : String :=
   if obs.startsWith "PANIC" || obs.startsWith "panic" then s!"fail:panic:{obs.take 120}" else "ok"
